@@ -25,6 +25,20 @@ NOTES = {
  'c01-4': 'round 2; missed by C01 at first (no host traffic during power-on), caught by C14 at once; C01 catches it after the dense-traffic-during-boot scenario was added',
  'c01-5': 'round 2; missed by C01 at first (scrolling only on firmware 2 in the quick tier), caught by C05 at once; C01 catches it after the firmware-1 scroll scenario was added to the quick tier',
  'c01-6': 'round 2; missed by C01 at first (the harness stepped itself), caught by C19 at once; C01 catches it after Dmd::run (rn op) was added to the lock-step cases',
+ 'c02-8': 'round 3; missed at first; caught after zero divisors became systematic over opcodes, source forms and all 16 flag states',
+ 'c06-8': 'round 3; missed at first; caught after pushes of expanded-type operands were added',
+ 'c06-9': 'round 3; missed at first (generated subroutines were always far ahead); caught after the BSBB / BSBH displacement sweep',
+ 'c03-9': 'round 3; missed at first; caught after read-modify-write instructions addressed through every base register (%r0 included)',
+ 'c05-7': 'round 3; missed at first; caught after JSB / JMP targets computed from the stack pointer were added',
+ 'c13-7': 'round 3; missed at first; caught after STREND / MOVBLW running into holes and ROM were added',
+ 'c13-9': 'round 3; missed at first; caught after STREND / MOVBLW running into holes and ROM were added',
+ 'c07-9': 'round 3; missed at first; caught after both receivers are pending at one boundary (C14 caught it at once)',
+ 'c12-7': 'round 3; missed at first; caught after the structured DUART histories were added to the no-panic cases (C08 caught it at once)',
+ 'c19-7': 'round 3; not caught by the C19 check (the C interface cannot put a channel into loop-back; only firmware 1 does); caught by C14',
+ 'c19-8': 'round 3; a call that never returns: caught by the hang watchdog added for it (the case is reported as HANG)',
+ 'c17-7': 'round 3; missed at first; caught after per-character commands (re-enable, reset error) were added to the pacing runs',
+ 'c17-9': 'round 3; missed at first; caught after the vertical-blank deadline is also observed while the processor runs at priority level 15',
+ 'c18-9': 'round 3; missed at first; caught after the memory operand of the register-vs-memory pairs goes through every addressing mode (C03 caught it at once)',
  'c03-3': 'missed by the first C03 slice (only two-operand probes); caught after expanded types are spread over 3- and 4-operand instructions',
 }
 for f in sorted(os.listdir('/var/tmp/mutres')):
